@@ -113,7 +113,9 @@ def check_ac(b, rq_b):
 
 def gen(quick):
     base_sup = {N.A: ((N.T1,), None, None), N.B: ((N.T2, N.T1), True, True), N.Q: ((N.T1,), None, None)}
-    titles = ["A", "ABCDEFGHIJKLMNOP", "A B C", "x"]
+    # (incl. fixed-width values from configuration files: padded beyond 16 characters - whatever the API
+    # accepts must still come out as a legal 16-byte field)
+    titles = ["A", "ABCDEFGHIJKLMNOP", "A B C", "x", " A", "A ", "STORESCP            ", "  ABCDEFGHIJKLMNOP", "ABCDEFGHIJKLMNOP ", "A" + " " * 16]
     for n in (1, 2, 3, 127, 128):
         req = [((N.A, N.B, N.Q, N.U)[i % 4], (N.T1, N.T2) if i % 3 else (N.T1,)) for i in range(n)]
         yield dict(requested=req, supported=base_sup)
@@ -146,7 +148,10 @@ def gen(quick):
 
 
 def eval_cfg(cfg):
-    o = N.run_cfg(cfg)
+    try:
+        o = N.run_cfg(cfg)
+    except (ValueError, TypeError):
+        return [], False  # the API refuses this configuration up front (e.g. an AE title that is too long)
     bad = []
     if "raised" in o["res"]:
         return bad, False
